@@ -239,7 +239,8 @@ def _shard(shard, seed, tier, n_cases):
     strat = engine.weighted([
         (8, sources.gen_params(max_hosts=60 if tier == "thorough" else 12, max_services=14 if tier == "thorough" else 12)),
         (1, sources.gen_params_many_features()),
-        (1, sources.gen_params_large())])
+        (1, sources.gen_params_large()),
+        (1, sources.gen_params_near_capacity())])
 
     @hypothesis.seed(seed)
     @settings(max_examples=n_cases, deadline=None, database=None, phases=[Phase.generate],
